@@ -22,8 +22,10 @@ AsSet(s) == {s[i] : i \in DOMAIN s}
 (* C03: command discovery                                                   *)
 
 \* where a file lies relative to the project path that was given to the tool
+\* beside_*: the file's directory also holds a NON-directory entry called .git (the gitdir file of a worktree or
+\* submodule) or target (a plain file, a symbolic link): only directories of those names are excluded
 AcceptedPathClasses == {"root", "depth1", "depth3", "sibling_targets", "file_named_target",
-                        "git_lookalike", "dotdir"}
+                        "git_lookalike", "dotdir", "beside_git_file", "beside_target_file", "beside_target_link"}
 RejectedPathClasses == {"under_target", "under_target_deep", "under_git", "non_rs", "rs_uppercase_ext"}
 
 FileAccepted(f) == f.pc \in AcceptedPathClasses /\ f.parsable
@@ -49,6 +51,13 @@ C03_Holds(files, wrappers) ==
 
 -----------------------------------------------------------------------------
 (* C07: reachable serde types                                               *)
+
+\* how a type's derive list is spelled; what matters is whether serde's Serialize or Deserialize is among the
+\* derived traits, however the path is written and whatever else is derived
+SerdeDerives == {"both", "both_with_others", "qualified", "abs_qualified", "ser_only", "de_only",
+                 "second_attribute", "qualified_among_others", "mixed_qualified"}
+NonSerdeDerives == {"others_only", "no_derive", "derive_empty"}
+DerivesSerde(kind) == kind \in SerdeDerives
 
 SurfaceSites == {"param", "ret", "chan", "event"}
 
